@@ -62,23 +62,22 @@ theorem wire_roundtrip_client (T : JsonText F) (dt cdt : DType F) (hwf : dt.WF) 
 /-! ## the text form is accepted back and maps to a value with the identical text form -/
 
 /-- every well-formed tree (structs included), every valid canonical value (structs of node-side types given with all
-their members: `TextComplete`; nothing is asked on a client's type), enum names that `strip` leaves alone: `to_string`
+their members: `TextComplete`; nothing is asked on a client's type): `to_string`
 answers a text, `from_string` accepts it, the value it is read as has the identical text form and equals `v` at every
 non-float leaf -/
-theorem text_roundtrip (lib : TextLib F) (hl : TextLib.Lawful lib) (dt : DType F) (hwf : dt.WF)
-    (hnames : NamesStripped lib dt) (v : PVal F) (hv : Valid dt v) (hc : Canon v) (htc : TextComplete dt v) :
+theorem text_roundtrip (lib : TextLib F) (hl : TextLib.Lawful lib) (dt : DType F) (hwf : dt.WF) (v : PVal F) (hv : Valid dt v) (hc : Canon v) (htc : TextComplete dt v) :
     ∃ t v', toString lib dt v = some t ∧ fromString lib dt t = .ok v' ∧ toString lib dt v' = some t ∧
       SameButFloats v' v := by
-  obtain ⟨t, v', h1, h2, h3, h4, _⟩ := text_rt lib hl dt (wft_of_wf dt hwf) hnames v hv hc htc
+  obtain ⟨t, v', h1, h2, h3, h4, _⟩ := text_rt lib hl dt (wft_of_wf dt hwf) v hv hc htc
   exact ⟨t, v', h1, h2, h3, h4⟩
 
 /-- … the same on the datatype a client rebuilt from the description, for every valid value of it (structs may lack
 their optional members there: every rebuilt struct has `client = True`) -/
 theorem text_roundtrip_client (lib : TextLib F) (hl : TextLib.Lawful lib) (dt cdt : DType F) (hwf : dt.WF)
-    (hc : clientOf dt = some cdt) (hnames : NamesStripped lib cdt) (v : PVal F) (hv : Valid cdt v) (hcan : Canon v) :
+    (hc : clientOf dt = some cdt) (v : PVal F) (hv : Valid cdt v) (hcan : Canon v) :
     ∃ t v', toString lib cdt v = some t ∧ fromString lib cdt t = .ok v' ∧ toString lib cdt v' = some t ∧
       SameButFloats v' v := by
-  obtain ⟨t, v', h1, h2, h3, h4, _⟩ := text_rt lib hl cdt (wft_clientOf dt cdt (wft_of_wf dt hwf) hc) hnames v hv hcan
+  obtain ⟨t, v', h1, h2, h3, h4, _⟩ := text_rt lib hl cdt (wft_clientOf dt cdt (wft_of_wf dt hwf) hc) v hv hcan
     (textComplete_clientOf dt cdt v hc)
   exact ⟨t, v', h1, h2, h3, h4⟩
 
@@ -90,11 +89,11 @@ non-float leaf); the value `setParameterFromString` sends is of the kind prescri
 imports on the node to a value equal to `v'`.  (A re-read float may lie outside the limits — `'%g' % 123456789.0`
 reads back as `123457000.0`; `import_value` does not look at limits, the `change` request validates.) -/
 theorem client_string_write (lib : TextLib F) (hl : TextLib.Lawful lib) (hb : B64Law) (dt cdt : DType F) (hwf : dt.WF)
-    (hc : clientOf dt = some cdt) (hnames : NamesStripped lib cdt) (v : PVal F) (hv : Valid cdt v) (hcan : Canon v) :
+    (hc : clientOf dt = some cdt) (v : PVal F) (hv : Valid cdt v) (hcan : Canon v) :
     ∃ t v' j v'', cacheItemStr lib cdt v = some t ∧ fromString lib cdt t = .ok v' ∧ toString lib cdt v' = some t ∧
       SameButFloats v' v ∧ clientSetFromString lib cdt t = .ok j ∧ KindOK dt j ∧ StrictJ j ∧
       importValue dt j = .ok v'' ∧ pyEq v'' v' = true := by
-  obtain ⟨t, v', h1, h2, h3, h4, hs⟩ := text_rt lib hl cdt (wft_clientOf dt cdt (wft_of_wf dt hwf) hc) hnames v hv hcan
+  obtain ⟨t, v', h1, h2, h3, h4, hs⟩ := text_rt lib hl cdt (wft_clientOf dt cdt (wft_of_wf dt hwf) hc) v hv hcan
     (textComplete_clientOf dt cdt v hc)
   obtain ⟨j, v'', e1, e2, e3, _, e4, e5, _⟩ := send_core dt v' hwf (sendable_clientOf dt cdt v' hc hs) hb
   exact ⟨t, v', j, v'', h1, h2, h3, h4, by simp [clientSetFromString, clientSet, h2, export_clientOf dt cdt v' hc, e1], e2, e3, e4, e5⟩
@@ -106,7 +105,7 @@ that text is strict JSON of the prescribed kind which the node imports to a valu
 `Valid cdt v`: the value also lies in the value set of the rebuilt type (its scaled limits are the node's snapped to
 the grid — the same set wherever the grid reproduces the snapped limits; always so for trees without scaled leaves). -/
 theorem client_cache_string_write (lib : TextLib F) (hl : TextLib.Lawful lib) (hb : B64Law) (dt cdt : DType F) (hwf : dt.WF)
-    (hc : clientOf dt = some cdt) (hnames : NamesStripped lib cdt) (v : PVal F) (hv : Valid dt v) (hvc : Valid cdt v)
+    (hc : clientOf dt = some cdt) (v : PVal F) (hv : Valid dt v) (hvc : Valid cdt v)
     (hcan : Canon v) :
     ∃ j item t v' j' v'', exportValue dt v = .ok j ∧ updateValue cdt j = .ok item ∧ item.value = v ∧
       item.str lib cdt = some t ∧ fromString lib cdt t = .ok v' ∧ toString lib cdt v' = some t ∧ SameButFloats v' v ∧
@@ -114,7 +113,7 @@ theorem client_cache_string_write (lib : TextLib F) (hl : TextLib.Lawful lib) (h
   obtain ⟨j, w, h1, _, _, _, h4, _, h6⟩ := wire_core dt v hwf hv hb
   have hw : w = v := h6 hcan
   subst hw
-  obtain ⟨t, v', j', v'', c1, c2, c3, c4, c5, c6, c7, c8, c9⟩ := client_string_write lib hl hb dt cdt hwf hc hnames w hvc hcan
+  obtain ⟨t, v', j', v'', c1, c2, c3, c4, c5, c6, c7, c8, c9⟩ := client_string_write lib hl hb dt cdt hwf hc w hvc hcan
   exact ⟨j, ⟨w, none⟩, t, v', j', v'', h1, by simp [updateValue, client_imports_alike dt cdt hc, h4], rfl, c1, c2, c3, c4, c5,
     c6, c7, c8, c9⟩
 
@@ -174,7 +173,7 @@ theorem exClient_eq : clientOf exTree = some exClient := by
 example : ∃ t v', toString exLib exTree exValueFull = some t ∧ fromString exLib exTree t = .ok v' ∧
     toString exLib exTree v' = some t ∧ SameButFloats v' exValueFull :=
   text_roundtrip exLib exLib_lawful exTree exTree_wf
-    (by simp [exTree, NamesStripped, NamesStrippedFields, NamesStrippedList, exLib]) exValueFull
+    exValueFull
     (of_decide_eq_true (by decide +kernel : validB exTree exValueFull = true))
     (by simp [exValueFull, Canon, CanonFields, CanonList, FloatOps.same, FloatOps.addZero])
     (by simp [exTree, exValueFull, TextComplete, TextCompleteMember, TextCompleteZip])
@@ -183,7 +182,7 @@ example (hb : B64Law) : ∃ t v' j v'', cacheItemStr exLib exClient exValue = so
     toString exLib exClient v' = some t ∧ SameButFloats v' exValue ∧ clientSetFromString exLib exClient t = .ok j ∧
     KindOK exTree j ∧ StrictJ j ∧ importValue exTree j = .ok v'' ∧ pyEq v'' v' = true :=
   client_string_write exLib exLib_lawful hb exTree exClient exTree_wf exClient_eq
-    (by simp [exClient, NamesStripped, NamesStrippedFields, NamesStrippedList, exLib]) exValue
+    exValue
     (of_decide_eq_true (by decide +kernel : validB exClient exValue = true))
     (by simp [exValue, Canon, CanonFields, CanonList, FloatOps.same, FloatOps.addZero])
 
@@ -196,7 +195,7 @@ example (hb : B64Law) : ∃ j item t v' j' v'', exportValue exTree exValue = .ok
     toString exLib exClient v' = some t ∧ SameButFloats v' exValue ∧ clientSetFromString exLib exClient t = .ok j' ∧
     KindOK exTree j' ∧ StrictJ j' ∧ importValue exTree j' = .ok v'' ∧ pyEq v'' v' = true :=
   client_cache_string_write exLib exLib_lawful hb exTree exClient exTree_wf exClient_eq
-    (by simp [exClient, NamesStripped, NamesStrippedFields, NamesStrippedList, exLib]) exValue exValue_valid
+    exValue exValue_valid
     (of_decide_eq_true (by decide +kernel : validB exClient exValue = true))
     (by simp [exValue, Canon, CanonFields, CanonList, FloatOps.same, FloatOps.addZero])
 
@@ -211,7 +210,7 @@ example : ∃ t v', toString exLib exTextTree exTextValue = some t ∧ fromStrin
     toString exLib exTextTree v' = some t ∧ SameButFloats v' exTextValue :=
   text_roundtrip exLib exLib_lawful exTextTree
     (by simp [exTextTree, DType.WF, DType.WFList, DType.namesOK])
-    (by simp [exTextTree, NamesStripped, NamesStrippedList, exLib]) exTextValue
+    exTextValue
     (of_decide_eq_true (by decide +kernel : validB exTextTree exTextValue = true))
     (by simp [exTextValue, Canon, CanonList])
     (by simp [exTextTree, exTextValue, TextComplete, TextCompleteZip])
